@@ -117,7 +117,7 @@ func (b *Backend) record(s *Sess, c *Call) *Call {
 func (b *Backend) Calls() []*Call {
 	b.mu.Lock()
 	defer b.mu.Unlock()
-	return append([]*Call(nil), b.calls...)
+	return b.calls[:len(b.calls):len(b.calls)] // append-only, see Sessions
 }
 
 // CallsSince returns calls with Seq >= n.
@@ -136,7 +136,9 @@ func (b *Backend) NCalls() int { b.mu.Lock(); defer b.mu.Unlock(); return len(b.
 func (b *Backend) Sessions() []*Sess {
 	b.mu.Lock()
 	defer b.mu.Unlock()
-	return append([]*Sess(nil), b.sessions...)
+	// the slice is append-only and its elements are never replaced: the capacity-limited prefix can be
+	// shared, which keeps this O(1) on servers that have seen tens of thousands of connections
+	return b.sessions[:len(b.sessions):len(b.sessions)]
 }
 
 func (s *Sess) Closes() int { s.mu.Lock(); defer s.mu.Unlock(); return s.closes }
